@@ -798,3 +798,431 @@ Proof.
   - intros k' L P. destruct (alloc_obs c (release c p k) k' b) eqn:A; [eauto|].
     exfalso. eapply release_reuse; eauto.
 Qed.
+
+(* ====================================================================== reverse index and component *)
+Definition rkey (m : mapping) : N * N := (b_ip (m_blk m), b_start (m_blk m)).
+
+Lemma nodup_map_inj {A B} (f : A -> B) l x y : NoDup (map f l) -> In x l -> In y l -> f x = f y -> x = y.
+Proof.
+  induction l as [|a l IH]; simpl; intros ND Hx Hy E; [contradiction|].
+  inversion ND as [|? ? NI ND']; subst.
+  destruct Hx as [->|Hx], Hy as [->|Hy]; auto.
+  - exfalso. apply NI. rewrite E. apply in_map; auto.
+  - exfalso. apply NI. rewrite <- E. apply in_map; auto.
+Qed.
+Lemma nodup_map_filter {A B} (f : A -> B) g l : NoDup (map f l) -> NoDup (map f (filter g l)).
+Proof.
+  induction l as [|a l IH]; simpl; intros ND; [constructor|]. inversion ND as [|? ? NI ND']; subst.
+  destruct (g a); simpl; auto. constructor; auto. intros H. apply NI.
+  apply in_map_iff in H. destruct H as (x & E & Hx). apply filter_In in Hx. rewrite <- E. apply in_map. tauto.
+Qed.
+Lemma remove_first_id_filter id l : NoDup (map m_id l) ->
+  remove_first_id id l = filter (fun m => negb (m_id m =? id)) l.
+Proof.
+  induction l as [|m l IH]; simpl; intros ND; [reflexivity|]. inversion ND as [|? ? NI ND']; subst.
+  destruct (N.eqb_spec (m_id m) id) as [E|E]; simpl.
+  - symmetry. rewrite <- (filter_ext_in (fun _ => true)); [clear; induction l; simpl; congruence|].
+    intros x Hx. symmetry. apply negb_true_iff, N.eqb_neq. intros E2. apply NI. rewrite E, <- E2. apply in_map; auto.
+  - f_equal. auto.
+Qed.
+
+Lemma NoDup_app_single {A} (l : list A) x : NoDup l /\ ~ In x l -> NoDup (l ++ [x]).
+Proof.
+  intros [ND NI]. induction l as [|a l IH]; simpl; [constructor; [tauto|constructor]|].
+  inversion ND; subst. constructor.
+  - rewrite in_app_iff. simpl. intros [H|[H|[]]]; [auto|]. apply NI. simpl; auto.
+  - apply IH; auto. intros H. apply NI. simpl; auto.
+Qed.
+
+Record RI (ri : rindex) : Prop := {
+  ri_fresh : forall m, In m (r_byip ri) -> m_id m < r_next ri;
+  ri_ids : NoDup (map m_id (r_byip ri));
+  ri_keys : NoDup (map rkey (r_byip ri));
+  ri_bb : forall ip s id, In (ip, s, id) (r_byblock ri) <->
+                          exists m, In m (r_byip ri) /\ rkey m = (ip, s) /\ m_id m = id }.
+
+Lemma key_eqb_spec ip s e : key_eqb ip s e = true <-> fst e = (ip, s).
+Proof.
+  unfold key_eqb. destruct e as [[ip' s'] id]; simpl. rewrite andb_true_iff, !N.eqb_eq. split.
+  - intros [-> ->]; reflexivity.
+  - intros H; inversion H; auto.
+Qed.
+
+(* membership after Remove: exactly the entries with another key *)
+Lemma rev_remove_spec ri ip s : RI ri ->
+  RI (rev_remove ri ip s) /\ r_next (rev_remove ri ip s) = r_next ri /\
+  forall m, In m (r_byip (rev_remove ri ip s)) <-> In m (r_byip ri) /\ rkey m <> (ip, s).
+Proof.
+  intros R. unfold rev_remove. destruct (find (key_eqb ip s) (r_byblock ri)) as [e|] eqn:F.
+  - apply find_some in F. destruct F as [Fi Fk]. apply key_eqb_spec in Fk.
+    destruct e as [[ip' s'] id]; simpl in Fk; inversion Fk; subst ip' s'; clear Fk. cbn [snd].
+    destruct (proj1 (ri_bb _ R ip s id) Fi) as (m0 & Hm0 & K0 & I0).
+    rewrite (remove_first_id_filter id _ (ri_ids _ R)).
+    assert (Hmem : forall m, In m (filter (fun m => negb (m_id m =? id)) (r_byip ri)) <-> In m (r_byip ri) /\ rkey m <> (ip, s)).
+    { intros m. rewrite filter_In, negb_true_iff, N.eqb_neq. split; intros [Hm H]; split; auto.
+      - intros K. apply H. rewrite <- I0. f_equal. eapply (nodup_map_inj rkey); eauto using ri_keys. congruence.
+      - intros E. apply H. rewrite <- K0. f_equal. eapply (nodup_map_inj m_id); eauto using ri_ids. congruence. }
+    split; [|split; [reflexivity|exact Hmem]].
+    constructor; cbn [r_byblock r_byip r_next].
+    + intros m Hm. apply Hmem in Hm. apply (ri_fresh _ R). tauto.
+    + apply nodup_map_filter. apply (ri_ids _ R).
+    + apply nodup_map_filter. apply (ri_keys _ R).
+    + intros ip' s' id'. rewrite filter_In, negb_true_iff. rewrite (ri_bb _ R). split.
+      * intros [(m & Hm & K & I) NK]. exists m. split; [|auto]. apply Hmem. split; auto.
+        intros K2. rewrite K in K2. inversion K2; subst. unfold key_eqb in NK; simpl in NK. rewrite !N.eqb_refl in NK. discriminate.
+      * intros (m & Hm & K & I). apply Hmem in Hm. destruct Hm as [Hm NK]. split; [eauto|].
+        apply not_true_is_false. intros T. apply key_eqb_spec in T. simpl in T. congruence.
+  - split; [exact R|]. split; [reflexivity|]. intros m. split; [|tauto]. intros Hm. split; [exact Hm|].
+    intros K. pose proof (find_none _ _ F) as FN.
+    assert (Hin : In (ip, s, m_id m) (r_byblock ri)) by (apply (ri_bb _ R); eauto).
+    specialize (FN _ Hin). assert (key_eqb ip s (ip, s, m_id m) = true) by (apply key_eqb_spec; reflexivity). congruence.
+Qed.
+
+Lemma rev_add_spec ri k b : RI ri ->
+  RI (rev_add repaired ri k b) /\
+  forall m, In m (r_byip (rev_add repaired ri k b)) <->
+            (In m (r_byip ri) /\ rkey m <> (b_ip b, b_start b)) \/ m = {| m_id := r_next ri; m_sub := k; m_blk := b |}.
+Proof.
+  intros R. destruct (rev_remove_spec ri (b_ip b) (b_start b) R) as (R1 & N1 & M1).
+  set (mn := {| m_id := r_next ri; m_sub := k; m_blk := b |}).
+  assert (BYIP : r_byip (rev_add repaired ri k b) = r_byip (rev_remove ri (b_ip b) (b_start b)) ++ [mn]).
+  { unfold rev_add, rev_remove. cbn [repaired v_replace r_byip].
+    destruct (find (key_eqb (b_ip b) (b_start b)) (r_byblock ri)); reflexivity. }
+  assert (BB : forall e, In e (r_byblock (rev_add repaired ri k b)) <->
+               e = (b_ip b, b_start b, r_next ri) \/ In e (r_byblock (rev_remove ri (b_ip b) (b_start b)))).
+  { intros e. unfold rev_add, rev_remove. cbn [r_byblock].
+    destruct (find (key_eqb (b_ip b) (b_start b)) (r_byblock ri)) eqn:F; cbn [r_byblock In].
+    - split; intros [H|H]; auto.
+    - split; intros [H|H]; auto.
+      + right. apply filter_In in H. tauto.
+      + right. apply filter_In. split; [exact H|]. rewrite (find_none _ _ F _ H). reflexivity. }
+  assert (Hmem : forall m, In m (r_byip (rev_add repaired ri k b)) <->
+            (In m (r_byip ri) /\ rkey m <> (b_ip b, b_start b)) \/ m = mn).
+  { intros m. rewrite BYIP, in_app_iff, M1. simpl. intuition. }
+  split; [|exact Hmem].
+  constructor.
+  - intros m Hm. apply Hmem in Hm. unfold rev_add; cbn [r_next]. destruct Hm as [[Hm _]| ->].
+    + pose proof (ri_fresh _ R _ Hm). lia.
+    + simpl. lia.
+  - rewrite BYIP, map_app. simpl. apply NoDup_app_single. split; [apply (ri_ids _ R1)|].
+    intros H. apply in_map_iff in H. destruct H as (m & E & Hm). apply M1 in Hm.
+    pose proof (ri_fresh _ R _ (proj1 Hm)). lia.
+  - rewrite BYIP, map_app. simpl. apply NoDup_app_single. split; [apply (ri_keys _ R1)|].
+    intros H. apply in_map_iff in H. destruct H as (m & E & Hm). apply M1 in Hm. destruct Hm as [_ NK]. apply NK. exact E.
+  - intros ip s id. rewrite BB. split.
+    + intros [E|H].
+      * inversion E; subst. exists mn. split; [apply Hmem; auto|]. split; reflexivity.
+      * apply (ri_bb _ R1) in H. destruct H as (m & Hm & K & I). exists m. split; [|auto].
+        rewrite BYIP. apply in_or_app. auto.
+    + intros (m & Hm & K & I). apply Hmem in Hm. destruct Hm as [Hm| ->].
+      * right. apply (ri_bb _ R1). exists m. split; [apply M1; exact Hm|auto].
+      * left. unfold rkey in K; simpl in K. inversion K; subst. simpl. reflexivity.
+Qed.
+
+(* the reverse index and the pool describe the same ownership *)
+Record RS (p : pool) (ri : rindex) : Prop := {
+  rs_sound : forall m, In m (r_byip ri) -> In (m_blk m) (blocks_of p (m_sub m));
+  rs_complete : forall k b, In b (blocks_of p k) -> exists m, In m (r_byip ri) /\ m_sub m = k /\ m_blk m = b }.
+
+Definition CInv (c : cfg) (st : list (N * N * bool * nat)) (s : comp) : Prop :=
+  Inv c st (cp_pool s) /\ RI (cp_rev s) /\ RS (cp_pool s) (cp_rev s).
+
+Lemma rs_ext p p' ri : (forall k, blocks_of p' k = blocks_of p k) -> RS p ri -> RS p' ri.
+Proof.
+  intros E [S C]. constructor.
+  - intros m Hm. rewrite E. auto.
+  - intros k b Hb. rewrite E in Hb. auto.
+Qed.
+
+Lemma commit_inv c st p p' ri k b : wf c -> Inv c st p' -> RI ri -> RS p ri ->
+  (forall k' b', In b' (blocks_of p k') -> In b' (blocks_of p' k')) ->
+  (forall k' b', In b' (blocks_of p' k') -> In b' (blocks_of p k') \/ (k' = k /\ b' = b)) ->
+  In b (blocks_of p' k) ->
+  RI (rev_add repaired ri k b) /\ RS p' (rev_add repaired ri k b).
+Proof.
+  intros W I' R [S C] Hgrow Hnew Hb. destruct (rev_add_spec ri k b R) as [R' M]. split; [exact R'|].
+  constructor.
+  - intros m Hm. apply M in Hm. destruct Hm as [[Hm _]| ->]; [apply Hgrow; auto|exact Hb].
+  - intros k' b' Hb'.
+    destruct (N.eq_dec (b_ip b') (b_ip b)) as [E1|E1]; [destruct (N.eq_dec (b_start b') (b_start b)) as [E2|E2]|].
+    + assert (k' = k) by (eapply (i_excl _ _ _ I'); eauto). subst k'.
+      destruct (i_blk _ _ _ I' _ _ Hb') as (_ & _ & _ & _ & En' & _).
+      destruct (i_blk _ _ _ I' _ _ Hb) as (_ & _ & _ & _ & En & _).
+      assert (b' = b) by (apply block_eq; congruence). subst b'.
+      eexists. split; [apply M; right; reflexivity|]. split; reflexivity.
+    + destruct (Hnew _ _ Hb') as [Ho|[-> ->]]; [|congruence].
+      destruct (C _ _ Ho) as (m & Hm & Ms & Mb). exists m. split; [|auto]. apply M. left. split; [exact Hm|].
+      unfold rkey. rewrite Mb. intros K; inversion K; congruence.
+    + destruct (Hnew _ _ Hb') as [Ho|[-> ->]]; [|congruence].
+      destruct (C _ _ Ho) as (m & Hm & Ms & Mb). exists m. split; [|auto]. apply M. left. split; [exact Hm|].
+      unfold rkey. rewrite Mb. intros K; inversion K; congruence.
+Qed.
+
+Lemma rev_remove_fold bl : forall ri, RI ri ->
+  let ri' := fold_left (fun ri b => rev_remove ri (b_ip b) (b_start b)) bl ri in
+  RI ri' /\ forall m, In m (r_byip ri') <-> In m (r_byip ri) /\ forall b, In b bl -> rkey m <> (b_ip b, b_start b).
+Proof.
+  induction bl as [|b bl IH]; intros ri R; simpl.
+  - split; [exact R|]. intros m. split; [intros H; split; [exact H|intros ? []]|tauto].
+  - destruct (rev_remove_spec ri (b_ip b) (b_start b) R) as (R1 & _ & M1).
+    destruct (IH _ R1) as [R2 M2]. split; [exact R2|]. intros m. rewrite M2, M1. split.
+    + intros [[Hm NK] H]. split; [exact Hm|]. intros b0 [<-|Hb0]; auto.
+    + intros [Hm H]. split; [split; [exact Hm|apply H; auto]|]. intros b0 Hb0. apply H; auto.
+Qed.
+
+Lemma release_comp_inv c st p ri k : wf c -> Inv c st p -> RI ri -> RS p ri ->
+  let ri' := fold_left (fun ri b => rev_remove ri (b_ip b) (b_start b)) (blocks_of p k) ri in
+  RI ri' /\ RS (release c p k) ri'.
+Proof.
+  intros W I R [S C]. destruct (rev_remove_fold (blocks_of p k) ri R) as [R' M]. split; [exact R'|].
+  constructor.
+  - intros m Hm. apply M in Hm. destruct Hm as [Hm NK]. rewrite blocks_of_release.
+    destruct (N.eqb_spec (m_sub m) k) as [E|E]; [|auto].
+    exfalso. specialize (S _ Hm). rewrite E in S. apply (NK _ S). reflexivity.
+  - intros k' b' Hb'. rewrite blocks_of_release in Hb'. destruct (N.eqb_spec k' k) as [E|NE]; [contradiction|].
+    destruct (C _ _ Hb') as (m & Hm & Ms & Mb). exists m. split; [|auto]. apply M. split; [exact Hm|].
+    intros b0 Hb0 K. unfold rkey in K. rewrite Mb in K. inversion K. apply NE. eapply (i_excl _ _ _ I); eauto.
+Qed.
+
+(* shape of what the pool operations do to the block lists *)
+Lemma do_alloc_shape c p k obs p' o : do_alloc c p k obs = (p', o) ->
+  (exists b addrs', o = RBlock true b /\ p' = add_block p k b addrs') \/
+  (p' = p /\ forall nw b, o <> RBlock nw b).
+Proof.
+  unfold do_alloc, alloc_literal.
+  destruct (limit_reached c p k) eqn:L; [intros H; inversion H; right; split; [auto|discriminate]|].
+  assert (AO : forall o0 p1, alloc_obs c p k o0 = Some p1 -> exists addrs', p1 = add_block p k o0 addrs').
+  { unfold alloc_obs. rewrite L. intros o0 p1 H.
+    destruct (match paired_target c p k with Some i => _ | None => _ end); inversion H. eauto. }
+  destruct (choose_target c p k) as [i|]; [|intros H; inversion H; right; split; [auto|discriminate]].
+  destruct (nth_error (p_addrs p) i) as [a|]; [|intros H; inversion H; right; split; [auto|discriminate]].
+  destruct (allocate_block a) as [[idx a']|]; [|intros H; inversion H; right; split; [auto|discriminate]].
+  destruct obs as [o0|]; [|intros H; inversion H; left; eauto].
+  destruct (block_eqb o0 _); [intros H; inversion H; left; eauto|].
+  destruct (alloc_obs c p k o0) as [p1|] eqn:A; intros H; inversion H.
+  - destruct (AO _ _ A) as (addrs' & ->). left. eauto.
+  - right. split; [auto|discriminate].
+Qed.
+
+Lemma restore_repaired_shape c st p k b p' : wf c -> Inv c st p -> restore_repaired c p k b true = Some p' ->
+  (p' = p /\ In b (blocks_of p k)) \/ exists addrs', p' = add_block p k b addrs'.
+Proof.
+  intros W I. unfold restore_repaired.
+  destruct (findi _ (p_addrs p)); [|discriminate]. destruct (nth_error (p_addrs p) n) as [a|]; [|discriminate].
+  destruct (a_excl a); [discriminate|]. destruct (start_ok c (a_total a) (b_start b)); [|discriminate]. simpl.
+  destruct (N.eqb_spec (b_end b) (b_start b + c_bs c - 1)) as [E|E]; [|discriminate]. simpl.
+  destruct (holds_block (blocks_of p k) b) eqn:H.
+  - intros X; inversion X; subst. left. split; [reflexivity|]. eapply holds_block_in; eauto.
+  - simpl. destruct (test_bit _ _); [discriminate|]. destruct (limit_reached c p k); [discriminate|].
+    destruct (c_paired c && _); [discriminate|]. intros X; inversion X. right. eauto.
+Qed.
+
+Lemma commit_after_add c st s p' k b sid addrs' : wf c -> CInv c st s -> Inv c st p' ->
+  p' = add_block (cp_pool s) k b addrs' -> CInv c st (commit_mapping repaired s p' sid k b).
+Proof.
+  intros W (I & R & S) I' E. unfold CInv, commit_mapping; cbn [cp_pool cp_rev].
+  destruct (commit_inv c st (cp_pool s) p' (cp_rev s) k b W I' R S) as [R' S']; [| | |auto].
+  - intros k' b' H. subst p'. rewrite blocks_of_add. destruct (k' =? k) eqn:K; [apply N.eqb_eq in K; subst; apply in_or_app|]; auto.
+  - intros k' b' H. subst p'. rewrite blocks_of_add in H. destruct (N.eqb_spec k' k) as [->|]; [|auto].
+    apply in_app_or in H. destruct H as [H|[<-|[]]]; auto.
+  - subst p'. rewrite blocks_of_add, N.eqb_refl. apply in_or_app. simpl; auto.
+Qed.
+Lemma commit_same c st s k b sid : wf c -> CInv c st s -> In b (blocks_of (cp_pool s) k) ->
+  CInv c st (commit_mapping repaired s (cp_pool s) sid k b).
+Proof.
+  intros W (I & R & S) Hb. unfold CInv, commit_mapping; cbn [cp_pool cp_rev].
+  destruct (commit_inv c st (cp_pool s) (cp_pool s) (cp_rev s) k b W I R S) as [R' S']; auto.
+Qed.
+
+Lemma restore_commit_inv c st s sid mk mb p' : wf c -> wfst c st -> CInv c st s ->
+  restore_repaired c (cp_pool s) mk mb true = Some p' -> CInv c st (commit_mapping repaired s p' sid mk mb).
+Proof.
+  intros W WS CI H. pose proof CI as (I & R & S).
+  pose proof (restore_repaired_inv _ _ _ _ _ _ _ W WS I H) as I'.
+  destruct (restore_repaired_shape _ _ _ _ _ _ W I H) as [[-> Hb]|(addrs' & E)].
+  - apply commit_same; auto.
+  - eapply commit_after_add; eauto.
+Qed.
+
+Lemma pba_activate_inv c st s sid k dp obs : wf c -> wfst c st -> CInv c st s ->
+  CInv c st (fst (pba_activate repaired c s sid k dp obs)).
+Proof.
+  intros W WS CI. pose proof CI as (I & R & S). unfold pba_activate. cbn [step].
+  destruct (blocks_of (cp_pool s) k) as [|b0 r0] eqn:B.
+  - destruct (do_alloc c (cp_pool s) k obs) as [p' o] eqn:D.
+    pose proof (do_alloc_inv c st (cp_pool s) k obs W WS I) as I'. rewrite D in I'. cbn [fst] in I'.
+    destruct (do_alloc_shape _ _ _ _ _ _ D) as [(b & addrs' & -> & E)|[-> Hno]].
+    + destruct dp; cbn [fst].
+      * eapply commit_after_add; eauto.
+      * unfold CInv, with_pool; cbn [cp_pool cp_rev]. split; [apply release_inv; auto|]. split; [exact R|].
+        eapply rs_ext; [|exact S]. intros k'. rewrite blocks_of_release. subst p'. rewrite blocks_of_add.
+        destruct (N.eqb_spec k' k) as [->|]; [rewrite B|]; reflexivity.
+    + destruct o as [nw b| | | |]; try (cbn [fst]; destruct s; exact CI).
+      exfalso. eapply Hno; reflexivity.
+  - cbn [fst]. apply commit_same; auto. rewrite B. simpl; auto.
+Qed.
+
+Lemma cstep_inv c st s o : wf c -> wfst c st -> CInv c st s -> CInv c st (fst (cstep repaired c s o)).
+Proof.
+  intros W WS CI. pose proof CI as (I & R & S).
+  destruct o as [sid k dp obs|sid k mk mb obs|sid k|sid mk mb|mk mb]; cbn [cstep].
+  - destruct (existsb (N.eqb sid) (cp_sess s)); [exact CI|]. apply pba_activate_inv; auto.
+  - destruct (existsb (N.eqb sid) (cp_sess s)); [exact CI|].
+    unfold restore; cbn [repaired v_validate].
+    destruct (restore_repaired c (cp_pool s) mk mb true) as [p'|] eqn:H; [|apply pba_activate_inv; auto].
+    cbn [fst]. eapply restore_commit_inv; eauto.
+  - destruct (negb (existsb (N.eqb sid) (cp_sess s))); [exact CI|].
+    destruct (blocks_of (cp_pool s) k) as [|b0 r0] eqn:B; cbn [fst]; [exact CI|].
+    unfold CInv; cbn [cp_pool cp_rev]. split; [apply release_inv; auto|].
+    rewrite <- B. apply release_comp_inv with (st := st); auto.
+  - unfold restore; cbn [repaired v_validate].
+    destruct (restore_repaired c (cp_pool s) mk mb true) as [p'|] eqn:H; cbn [fst]; [|exact CI].
+    eapply restore_commit_inv; eauto.
+  - unfold restore; cbn [repaired v_validate].
+    destruct (restore_repaired c (cp_pool s) mk mb true) as [p'|] eqn:H; cbn [fst]; [|exact CI].
+    exact (restore_commit_inv c st s 0 mk mb p' W WS CI H).
+Qed.
+
+Lemma crun_inv c st ops : wf c -> wfst c st -> forall s, CInv c st s -> CInv c st (crun repaired c s ops).
+Proof.
+  intros W WS. unfold crun. induction ops as [|o ops IH]; intros s CI; simpl; [exact CI|].
+  apply IH. apply cstep_inv; auto.
+Qed.
+
+Lemma comp_init_inv c st p0 : Inv c st p0 -> (forall k, blocks_of p0 k = []) -> CInv c st (comp_init p0).
+Proof.
+  intros I E. unfold CInv, comp_init; cbn [cp_pool cp_rev]. split; [exact I|]. split.
+  - constructor; simpl; try (intros; contradiction); try constructor.
+    all: try (intros; contradiction).
+    intros (m & [] & _).
+  - constructor; simpl; [intros m []|]. intros k b H. rewrite E in H. contradiction.
+Qed.
+
+Lemma configure_empty v r p0 : configure v r = Some p0 -> forall k, blocks_of p0 k = [].
+Proof. unfold configure. destruct (c_bs (effective r) =? 0); [discriminate|]. intros H; inversion H. reflexivity. Qed.
+
+Lemma covers_spec b ip port : covers b ip port = true <-> b_ip b = ip /\ b_start b <= port /\ port <= b_end b.
+Proof. unfold covers. rewrite !andb_true_iff, N.eqb_eq, !N.leb_le. tauto. Qed.
+
+Section CompStatements.
+  Variable r : rawcfg.
+  Variable p0 : pool.
+  Variable ops : list cop.
+  Hypothesis Hr : wf_range r.
+  Hypothesis Hc : configure repaired r = Some p0.
+  Let c := effective r.
+  Let s := crun repaired c (comp_init p0) ops.
+
+  Lemma comp_reach : wf c /\ wfst c (map static (p_addrs p0)) /\ CInv c (map static (p_addrs p0)) s.
+  Proof.
+    destruct (configure_inv r p0 Hr Hc) as (W & WS & I0). split; [exact W|]. split; [exact WS|].
+    apply crun_inv; auto. apply comp_init_inv; auto. eapply configure_empty; eauto.
+  Qed.
+
+  Lemma reverse_lookup_exact ip port :
+    match rev_lookup (cp_rev s) ip port with
+    | Some m => In (m_blk m) (blocks_of (cp_pool s) (m_sub m)) /\ covers (m_blk m) ip port = true /\
+                forall k b, In b (blocks_of (cp_pool s) k) -> covers b ip port = true -> k = m_sub m /\ b = m_blk m
+    | None => forall k b, In b (blocks_of (cp_pool s) k) -> covers b ip port = false
+    end.
+  Proof.
+    destruct comp_reach as (W & WS & I & R & [S C]). unfold rev_lookup.
+    destruct (find _ (r_byip (cp_rev s))) as [m|] eqn:F.
+    - apply find_some in F. destruct F as [Hm Cm]. pose proof (S _ Hm) as Own. split; [exact Own|]. split; [exact Cm|].
+      intros k b Hb Cb. apply covers_spec in Cm. apply covers_spec in Cb.
+      destruct (i_blk _ _ _ I _ _ Hb) as (_ & _ & _ & S1 & E1 & _).
+      destruct (i_blk _ _ _ I _ _ Own) as (_ & _ & _ & S2 & E2 & _).
+      assert (ES : b_start b = b_start (m_blk m)).
+      { destruct (N.eq_dec (b_start b) (b_start (m_blk m))) as [E|NE]; [exact E|].
+        destruct (start_ok_disjoint c _ _ W S1 S2 NE); lia. }
+      assert (EI : b_ip b = b_ip (m_blk m)) by (destruct Cm, Cb; congruence).
+      split; [eapply (i_excl _ _ _ I); eauto|]. apply block_eq; congruence.
+    - intros k b Hb. destruct (covers b ip port) eqn:Cb; [|reflexivity]. exfalso.
+      destruct (C _ _ Hb) as (m & Hm & _ & Mb). pose proof (find_none _ _ F _ Hm) as N. simpl in N. congruence.
+  Qed.
+
+  (* the pool inside the component obeys the same four statements as the bare pool *)
+  Lemma comp_pool_props :
+    (forall k1 k2 b1 b2, k1 <> k2 -> In b1 (blocks_of (cp_pool s) k1) -> In b2 (blocks_of (cp_pool s) k2) ->
+       b_ip b1 = b_ip b2 -> b_end b1 < b_start b2 \/ b_end b2 < b_start b1) /\
+    (forall k b, In b (blocks_of (cp_pool s) k) ->
+       In (b_ip b) (flat_map expand (r_outside r)) /\ ~ In (b_ip b) (r_excluded r) /\
+       c_pstart c <= b_start b /\ (b_start b - c_pstart c) mod c_bs c = 0 /\
+       b_end b = b_start b + c_bs c - 1 /\ b_end b <= c_pend c) /\
+    (forall k, N.of_nat (length (blocks_of (cp_pool s) k)) <= c_max c) /\
+    (c_paired c = true -> forall k b1 b2, In b1 (blocks_of (cp_pool s) k) -> In b2 (blocks_of (cp_pool s) k) -> b_ip b1 = b_ip b2).
+  Proof.
+    destruct comp_reach as (W & WS & I & _). repeat split.
+    - apply (inv_disjoint _ _ _ W I).
+    - destruct (inv_block_ok _ _ _ W WS I _ _ H) as ((a & Ha & Eip & X) & _).
+      apply (in_map static) in Ha. rewrite (i_static _ _ _ I) in Ha.
+      destruct (configure_addr r p0 a Hc Ha) as [A1 _]. rewrite Eip in A1. exact A1.
+    - destruct (inv_block_ok _ _ _ W WS I _ _ H) as ((a & Ha & Eip & X) & _).
+      apply (in_map static) in Ha. rewrite (i_static _ _ _ I) in Ha.
+      destruct (configure_addr r p0 a Hc Ha) as [_ A2]. rewrite Eip in A2. auto.
+    - apply (inv_block_ok _ _ _ W WS I _ _ H).
+    - apply (inv_block_ok _ _ _ W WS I _ _ H).
+    - apply (inv_block_ok _ _ _ W WS I _ _ H).
+    - apply (inv_block_ok _ _ _ W WS I _ _ H).
+    - apply (i_limit _ _ _ I).
+    - intros P. apply (i_paired _ _ _ I P).
+  Qed.
+End CompStatements.
+
+(* the current first-free policy is one of the admissible ones *)
+Lemma literal_is_admissible c st p k b p' : wf c -> wfst c st -> Inv c st p ->
+  alloc_literal c p k = inr (b, p') -> alloc_obs c p k b = Some p'.
+Proof.
+  intros W WS I. unfold alloc_literal, alloc_obs.
+  destruct (limit_reached c p k) eqn:L; [discriminate|].
+  destruct (choose_target c p k) as [i|] eqn:C; [|discriminate].
+  destruct (nth_error (p_addrs p) i) as [a|] eqn:Hn; [|discriminate].
+  destruct (allocate_block a) as [[idx a']|] eqn:A; [|discriminate].
+  intros H; inversion H; subst b p'; clear H.
+  destruct (allocate_block_spec _ _ _ A) as (Hidx & Hclr & Ha').
+  destruct (inv_addr _ _ _ a WS I (nth_error_In _ _ Hn)) as [Htot _]. rewrite Htot in Hidx.
+  destruct (block_at_spec c (a_ip a) idx W Hidx) as (B1 & B2 & B3 & B4 & B5).
+  assert (O : obs_addr_ok c (block_at c (a_ip a) idx) a = true).
+  { unfold obs_addr_ok. rewrite B1, N.eqb_refl, Htot, B4, B3, N.eqb_refl, B5, Hclr.
+    assert (X : a_excl a = false).
+    { unfold choose_target in C. destruct (paired_target c p k) as [i'|] eqn:PT.
+      - inversion C; subst i'. apply (paired_target_some _ _ _ _ _ _ WS I PT Hn).
+      - unfold first_free in C. destruct (findi_spec _ _ _ C) as (a0 & Hn0 & F). rewrite Hn in Hn0. inversion Hn0; subst a0.
+        apply andb_true_iff in F. destruct F as [F _]. apply negb_true_iff in F. exact F. }
+    rewrite X. reflexivity. }
+  assert (U : upd_nth i (fun _ => a') (p_addrs p) =
+              upd_nth i (fun a0 => with_bits a0 (set_bit (a_bits a0) (idx_of c (b_start (block_at c (a_ip a) idx))))) (p_addrs p)).
+  { eapply upd_nth_const; eauto. rewrite B5. auto. }
+  unfold choose_target in C. destruct (paired_target c p k) as [i'|] eqn:PT.
+  - inversion C; subst i'. rewrite Hn, O, U. reflexivity.
+  - assert (FI : findi (obs_addr_ok c (block_at c (a_ip a) idx)) (p_addrs p) = Some i).
+    { pose proof (inv_nodup _ _ _ WS I) as ND.
+      destruct (findi (obs_addr_ok c (block_at c (a_ip a) idx)) (p_addrs p)) as [j|] eqn:FJ.
+      - destruct (findi_spec _ _ _ FJ) as (aj & Hj & Oj).
+        assert (a_ip aj = a_ip a).
+        { unfold obs_addr_ok in Oj. rewrite !andb_true_iff in Oj. destruct Oj as ((((Oj & _) & _) & _) & _).
+          apply N.eqb_eq in Oj. rewrite B1 in Oj. exact Oj. }
+        f_equal. clear - ND Hj Hn H. revert i j Hj Hn. induction (p_addrs p) as [|x l IH]; intros [|i] [|j] Hj Hn; simpl in *; try discriminate; auto.
+        + inversion Hn; subst. inversion ND; subst. exfalso. apply H2. rewrite <- H. apply in_map. eapply nth_error_In; eauto.
+        + inversion Hj; subst. inversion ND; subst. exfalso. apply H2. rewrite H. apply in_map. eapply nth_error_In; eauto.
+        + f_equal. inversion ND; subst. eauto.
+      - pose proof (findi_none _ _ FJ a (nth_error_In _ _ Hn)). congruence. }
+    rewrite FI, U. reflexivity.
+Qed.
+
+Lemma first_free_admissible r p0 ops k b p' : wf_range r -> configure repaired r = Some p0 ->
+  alloc_literal (effective r) (run repaired (effective r) p0 ops) k = inr (b, p') ->
+  alloc_obs (effective r) (run repaired (effective r) p0 ops) k b = Some p'.
+Proof.
+  intros Hr Hc. destruct (configure_inv r p0 Hr Hc) as (W & WS & I0).
+  eapply literal_is_admissible; eauto. apply run_inv; auto.
+Qed.
+
+(* second geometry for the reverse-index witnesses: one public address *)
+Definition ex_raw1 : rawcfg :=
+  {| r_bs := 16; r_ratio := 0; r_range := Some (1024, 1151); r_max := 2; r_pooling := 1;
+     r_outside := [OIp 1681915905]; r_excluded := [] |}.
+(* the same address listed twice *)
+Definition ex_raw_dup : rawcfg :=
+  {| r_bs := 64; r_ratio := 0; r_range := Some (1024, 1151); r_max := 1; r_pooling := 1;
+     r_outside := [OIp 1681915905; OIp 1681915905]; r_excluded := [] |}.
